@@ -1,12 +1,657 @@
-//! C01 — (stub: no ops yet)
+//! C01 — end to end: run the built `sage` binary on generated FASTA / MGF / JSON, parse every
+//! output table, and hand the rows to the Lean driver, which evaluates `RowOK` on them.
+//!
+//!   e2e <cfg…> <fasta…> <files…> <planted…>  ->  ok <tsv rows…> <pin rows…> <fragment rows…> | err:<class>
+//!
+//! The request is self-contained (structured configuration, FASTA records, spectra, planted
+//! peptides); the harness renders JSON / FASTA / MGF text from it into a scratch directory outside
+//! /repo and /verif, runs the binary there and removes the directory afterwards.
 use super::Info;
-use crate::proto::{Case, Rng, Tier, Toks};
+use crate::proto::{Case, Out, Rng, Tier, Toks};
+use sage_core::database::Builder;
+use sage_core::fasta::Fasta;
+use sage_core::ion_series::{IonSeries, Kind};
+use sage_core::mass::{NEUTRON, PROTON};
+use std::collections::HashMap;
+use std::io::Write;
 
-pub const OPS: &[&str] = &[];
-pub const INFO: Info = Info { rule: "", serial: false };
+pub const OPS: &[&str] = &["e2e"];
+pub const INFO: Info = Info {
+    rule: "end-to-end runs of the sage binary: random proteome (2-6 proteins, length 12-60, alphabet rich in K/R/P/M/C, \
+           shared peptides, palindromes) x enzyme (trypsin, trypsin/P off, Lys-C, Asp-N, semi, mc 0-2) x static/variable \
+           mods x ppm|Da precursor tolerance x isotope errors x internal|FASTA decoys x report_psms x chimera x pin x \
+           annotate x batch size; spectra = full b/y ladders of database peptides (+noise, isotope-shifted precursors, \
+           charge annotated or not); non-trivial = the run reported at least 2 PSM rows; distinct by request",
+    serial: true,
+};
 
-pub fn gen(_rng: &mut Rng, _tier: Tier, _emit: &mut dyn FnMut(Case)) {}
+#[derive(Clone, Debug)]
+pub struct Cfg {
+    pub cleave: String,
+    pub restrict: Option<u8>,
+    pub cterm: bool,
+    pub semi: bool,
+    pub mc: u8,
+    pub min_len: usize,
+    pub max_len: usize,
+    pub min_mass: f32,
+    pub max_mass: f32,
+    pub statics: Vec<(String, f32)>,
+    pub vars: Vec<(String, Vec<f32>)>,
+    pub max_var: usize,
+    pub decoy_tag: String,
+    pub gen_decoys: bool,
+    pub ptol: (u8, f32, f32), // 0 = ppm, 1 = da
+    pub ftol: (u8, f32, f32),
+    pub iso: (i8, i8),
+    pub z: (u8, u8),
+    pub report_psms: usize,
+    pub chimera: bool,
+    pub min_peaks: usize,
+    pub max_peaks: usize,
+    pub min_matched: u16,
+    pub max_frag_charge: Option<u8>,
+    pub deisotope: bool,
+    pub annotate: bool,
+    pub pin: bool,
+    pub predict_rt: bool,
+    pub batch: usize,
+    pub bucket: usize,
+    pub min_ion_index: usize,
+}
 
-pub fn exec(_op: &str, _t: &mut Toks) -> Option<String> {
-    None
+#[derive(Clone, Debug)]
+pub struct Spec {
+    pub title: String,
+    pub pepmz: f32,
+    pub charge: Option<u8>,
+    pub rt_sec: f32,
+    pub peaks: Vec<(f32, f32)>,
+}
+
+#[derive(Clone, Debug)]
+pub struct Planted {
+    pub file: usize,
+    pub title: String,
+    pub peptide: String,
+}
+
+pub struct Request {
+    pub cfg: Cfg,
+    pub fasta: Vec<(String, String)>,
+    pub files: Vec<Vec<Spec>>,
+    pub planted: Vec<Planted>,
+}
+
+fn enc_tol(o: &mut Out, t: (u8, f32, f32)) {
+    o.n(t.0).f32(t.1).f32(t.2);
+}
+
+pub fn encode(r: &Request) -> String {
+    let c = &r.cfg;
+    let mut o = Out::new();
+    o.raw("e2e");
+    o.s(&c.cleave);
+    match c.restrict {
+        Some(x) => o.n(1).n(x),
+        None => o.n(0),
+    };
+    o.b(c.cterm).b(c.semi).n(c.mc).n(c.min_len).n(c.max_len).f32(c.min_mass).f32(c.max_mass);
+    o.n(c.statics.len());
+    for (k, m) in &c.statics {
+        o.s(k).f32(*m);
+    }
+    o.n(c.vars.len());
+    for (k, ms) in &c.vars {
+        o.s(k).n(ms.len());
+        for m in ms {
+            o.f32(*m);
+        }
+    }
+    o.n(c.max_var).s(&c.decoy_tag).b(c.gen_decoys);
+    enc_tol(&mut o, c.ptol);
+    enc_tol(&mut o, c.ftol);
+    o.n(c.iso.0).n(c.iso.1).n(c.z.0).n(c.z.1).n(c.report_psms).b(c.chimera).n(c.min_peaks).n(c.max_peaks).n(c.min_matched);
+    match c.max_frag_charge {
+        Some(x) => o.n(1).n(x),
+        None => o.n(0),
+    };
+    o.b(c.deisotope).b(c.annotate).b(c.pin).b(c.predict_rt).n(c.batch).n(c.bucket).n(c.min_ion_index);
+    o.n(r.fasta.len());
+    for (a, s) in &r.fasta {
+        o.s(a).s(s);
+    }
+    o.n(r.files.len());
+    for f in &r.files {
+        o.n(f.len());
+        for s in f {
+            o.s(&s.title).f32(s.pepmz);
+            match s.charge {
+                Some(z) => o.n(1).n(z),
+                None => o.n(0),
+            };
+            o.f32(s.rt_sec).n(s.peaks.len());
+            for (mz, int) in &s.peaks {
+                o.f32(*mz).f32(*int);
+            }
+        }
+    }
+    o.n(r.planted.len());
+    for p in &r.planted {
+        o.n(p.file).s(&p.title).s(&p.peptide);
+    }
+    o.finish()
+}
+
+fn dec_tol(t: &mut Toks) -> Option<(u8, f32, f32)> {
+    Some((t.usize()? as u8, t.f32()?, t.f32()?))
+}
+
+pub fn decode(t: &mut Toks) -> Option<Request> {
+    let cleave = t.string()?;
+    let restrict = t.opt(|t| t.usize())?.map(|x| x as u8);
+    let cterm = t.bool()?;
+    let semi = t.bool()?;
+    let mc = t.usize()? as u8;
+    let min_len = t.usize()?;
+    let max_len = t.usize()?;
+    let min_mass = t.f32()?;
+    let max_mass = t.f32()?;
+    let statics = t.list(|t| Some((t.string()?, t.f32()?)))?;
+    let vars = t.list(|t| Some((t.string()?, t.list(|t| t.f32())?)))?;
+    let max_var = t.usize()?;
+    let decoy_tag = t.string()?;
+    let gen_decoys = t.bool()?;
+    let ptol = dec_tol(t)?;
+    let ftol = dec_tol(t)?;
+    let iso = (t.i64()? as i8, t.i64()? as i8);
+    let z = (t.usize()? as u8, t.usize()? as u8);
+    let report_psms = t.usize()?;
+    let chimera = t.bool()?;
+    let min_peaks = t.usize()?;
+    let max_peaks = t.usize()?;
+    let min_matched = t.usize()? as u16;
+    let max_frag_charge = t.opt(|t| t.usize())?.map(|x| x as u8);
+    let deisotope = t.bool()?;
+    let annotate = t.bool()?;
+    let pin = t.bool()?;
+    let predict_rt = t.bool()?;
+    let batch = t.usize()?;
+    let bucket = t.usize()?;
+    let min_ion_index = t.usize()?;
+    let fasta = t.list(|t| Some((t.string()?, t.string()?)))?;
+    let files = t.list(|t| {
+        t.list(|t| {
+            Some(Spec {
+                title: t.string()?,
+                pepmz: t.f32()?,
+                charge: t.opt(|t| t.usize())?.map(|x| x as u8),
+                rt_sec: t.f32()?,
+                peaks: t.list(|t| Some((t.f32()?, t.f32()?)))?,
+            })
+        })
+    })?;
+    let planted = t.list(|t| Some(Planted { file: t.usize()?, title: t.string()?, peptide: t.string()? }))?;
+    Some(Request {
+        cfg: Cfg {
+            cleave, restrict, cterm, semi, mc, min_len, max_len, min_mass, max_mass, statics, vars, max_var,
+            decoy_tag, gen_decoys, ptol, ftol, iso, z, report_psms, chimera, min_peaks, max_peaks, min_matched,
+            max_frag_charge, deisotope, annotate, pin, predict_rt, batch, bucket, min_ion_index,
+        },
+        fasta,
+        files,
+        planted,
+    })
+}
+
+fn tol_json(t: (u8, f32, f32)) -> serde_json::Value {
+    if t.0 == 0 {
+        serde_json::json!({"ppm": [t.1, t.2]})
+    } else {
+        serde_json::json!({"da": [t.1, t.2]})
+    }
+}
+
+pub fn database_json(c: &Cfg, fasta_path: &str) -> serde_json::Value {
+    let statics: HashMap<String, f32> = c.statics.iter().cloned().collect();
+    let vars: HashMap<String, Vec<f32>> = c.vars.iter().cloned().collect();
+    serde_json::json!({
+        "bucket_size": c.bucket,
+        "enzyme": {
+            "missed_cleavages": c.mc,
+            "min_len": c.min_len,
+            "max_len": c.max_len,
+            "cleave_at": c.cleave,
+            "restrict": c.restrict.map(|x| (x as char).to_string()),
+            "c_terminal": c.cterm,
+            "semi_enzymatic": c.semi,
+        },
+        "peptide_min_mass": c.min_mass,
+        "peptide_max_mass": c.max_mass,
+        "min_ion_index": c.min_ion_index,
+        "static_mods": statics,
+        "variable_mods": vars,
+        "max_variable_mods": c.max_var,
+        "decoy_tag": c.decoy_tag,
+        "generate_decoys": c.gen_decoys,
+        "fasta": fasta_path,
+    })
+}
+
+pub fn config_json(c: &Cfg, fasta_path: &str, spectra_paths: &[String], outdir: &str) -> serde_json::Value {
+    serde_json::json!({
+        "database": database_json(c, fasta_path),
+        "precursor_tol": tol_json(c.ptol),
+        "fragment_tol": tol_json(c.ftol),
+        "report_psms": c.report_psms,
+        "chimera": c.chimera,
+        "min_peaks": c.min_peaks,
+        "max_peaks": c.max_peaks,
+        "max_fragment_charge": c.max_frag_charge,
+        "min_matched_peaks": c.min_matched,
+        "precursor_charge": [c.z.0, c.z.1],
+        "isotope_errors": [c.iso.0, c.iso.1],
+        "deisotope": c.deisotope,
+        "predict_rt": c.predict_rt,
+        "output_directory": outdir,
+        "mzml_paths": spectra_paths,
+    })
+}
+
+pub fn fasta_text(recs: &[(String, String)]) -> String {
+    let mut s = String::new();
+    for (i, (a, q)) in recs.iter().enumerate() {
+        s.push_str(&format!(">{} description {}\n", a, i));
+        // wrap at 60, like real FASTA files
+        for chunk in q.as_bytes().chunks(60) {
+            s.push_str(std::str::from_utf8(chunk).unwrap());
+            s.push('\n');
+        }
+    }
+    s
+}
+
+pub fn mgf_text(specs: &[Spec]) -> String {
+    let mut s = String::new();
+    for sp in specs {
+        s.push_str("BEGIN IONS\n");
+        s.push_str(&format!("TITLE={}\n", sp.title));
+        s.push_str(&format!("PEPMASS={}\n", sp.pepmz));
+        if let Some(z) = sp.charge {
+            s.push_str(&format!("CHARGE={}+\n", z));
+        }
+        s.push_str(&format!("RTINSECONDS={}\n", sp.rt_sec));
+        for (mz, int) in &sp.peaks {
+            s.push_str(&format!("{} {}\n", mz, int));
+        }
+        s.push_str("END IONS\n\n");
+    }
+    s
+}
+
+fn sage_bin() -> String {
+    std::env::var("VERIF_SAGE_BIN").unwrap_or_else(|_| {
+        let exe = std::env::current_exe().unwrap();
+        // <harness>/target/debug/<exe>  ->  <harness>/target-sage/debug/sage
+        let harness = exe.parent().unwrap().parent().unwrap().parent().unwrap();
+        harness.join("target-sage").join("debug").join("sage").to_string_lossy().to_string()
+    })
+}
+
+struct Scratch(std::path::PathBuf);
+impl Drop for Scratch {
+    fn drop(&mut self) {
+        let _ = std::fs::remove_dir_all(&self.0);
+    }
+}
+
+fn scratch() -> Scratch {
+    use std::sync::atomic::{AtomicUsize, Ordering};
+    static N: AtomicUsize = AtomicUsize::new(0);
+    let d = std::env::temp_dir().join(format!("sage-verif-e2e-{}-{}", std::process::id(), N.fetch_add(1, Ordering::SeqCst)));
+    std::fs::create_dir_all(&d).unwrap();
+    Scratch(d)
+}
+
+fn read_table(path: &std::path::Path) -> Option<(Vec<String>, Vec<Vec<String>>)> {
+    let text = std::fs::read_to_string(path).ok()?;
+    let mut lines = text.lines();
+    let header: Vec<String> = lines.next()?.split('\t').map(|s| s.to_string()).collect();
+    let rows = lines.filter(|l| !l.is_empty()).map(|l| l.split('\t').map(|s| s.to_string()).collect()).collect();
+    Some((header, rows))
+}
+
+enum Ty {
+    U,
+    I,
+    S,
+    F32,
+    F64,
+}
+
+fn emit_table(o: &mut Out, table: &(Vec<String>, Vec<Vec<String>>), cols: &[(&str, Ty)]) -> Result<(), String> {
+    let (header, rows) = table;
+    let mut idx = Vec::new();
+    for (name, _) in cols {
+        match header.iter().position(|h| h == name) {
+            Some(i) => idx.push(i),
+            None => return Err(format!("err:missing-column:{}", name)),
+        }
+    }
+    o.n(rows.len());
+    for r in rows {
+        for ((name, ty), &i) in cols.iter().zip(idx.iter()) {
+            let cell = r.get(i).ok_or_else(|| format!("err:short-row:{}", name))?;
+            match ty {
+                Ty::U => {
+                    o.n(cell.parse::<u64>().map_err(|_| format!("err:bad-cell:{}", name))?);
+                }
+                Ty::I => {
+                    o.n(cell.parse::<i64>().map_err(|_| format!("err:bad-cell:{}", name))?);
+                }
+                Ty::S => {
+                    o.s(cell);
+                }
+                Ty::F32 => {
+                    o.f32(cell.parse::<f32>().map_err(|_| format!("err:bad-cell:{}", name))?);
+                }
+                Ty::F64 => {
+                    o.f64(cell.parse::<f64>().map_err(|_| format!("err:bad-cell:{}", name))?);
+                }
+            }
+        }
+    }
+    Ok(())
+}
+
+pub fn run(r: &Request) -> String {
+    let sc = scratch();
+    let dir = &sc.0;
+    let fasta_path = dir.join("db.fasta");
+    std::fs::write(&fasta_path, fasta_text(&r.fasta)).unwrap();
+    let mut paths = Vec::new();
+    for (i, f) in r.files.iter().enumerate() {
+        let p = dir.join(format!("file{}.mgf", i));
+        std::fs::write(&p, mgf_text(f)).unwrap();
+        paths.push(p.to_string_lossy().to_string());
+    }
+    let outdir = dir.join("out");
+    let cfg = config_json(&r.cfg, &fasta_path.to_string_lossy(), &paths, &outdir.to_string_lossy());
+    let cfg_path = dir.join("cfg.json");
+    std::fs::File::create(&cfg_path).unwrap().write_all(serde_json::to_string_pretty(&cfg).unwrap().as_bytes()).unwrap();
+
+    let mut cmd = std::process::Command::new(sage_bin());
+    cmd.arg(&cfg_path)
+        .arg("--batch-size")
+        .arg(r.cfg.batch.to_string())
+        .arg("--disable-telemetry-i-dont-want-to-improve-sage")
+        .env("SAGE_LOG", "error")
+        .env("RAYON_NUM_THREADS", "4")
+        .current_dir(dir)
+        .stdout(std::process::Stdio::null())
+        .stderr(std::process::Stdio::piped());
+    if r.cfg.pin {
+        cmd.arg("--write-pin");
+    }
+    if r.cfg.annotate {
+        cmd.arg("--annotate-matches");
+    }
+    let outp = match cmd.output() {
+        Ok(o) => o,
+        Err(_) => return "err:cannot-run-sage-binary".into(),
+    };
+    if !outp.status.success() {
+        let e = String::from_utf8_lossy(&outp.stderr);
+        let class = if e.contains("panicked") { "panic" } else { "err:nonzero-exit" };
+        return class.to_string();
+    }
+    let tsv = match read_table(&outdir.join("results.sage.tsv")) {
+        Some(t) => t,
+        None => return "err:no-results-tsv".into(),
+    };
+    let mut o = Out::new();
+    o.raw("ok");
+    use Ty::*;
+    let res = emit_table(
+        &mut o,
+        &tsv,
+        &[
+            ("psm_id", U), ("peptide", S), ("proteins", S), ("num_proteins", U), ("filename", S), ("scannr", S),
+            ("rank", U), ("label", I), ("expmass", F32), ("calcmass", F32), ("charge", U), ("peptide_len", U),
+            ("missed_cleavages", U), ("semi_enzymatic", U), ("isotope_error", F32), ("precursor_ppm", F32),
+            ("fragment_ppm", F32), ("hyperscore", F64), ("delta_next", F64), ("delta_best", F64), ("rt", F32),
+            ("matched_peaks", U), ("longest_b", U), ("longest_y", U), ("scored_candidates", U), ("poisson", F64),
+            ("sage_discriminant_score", F32), ("posterior_error", F32), ("spectrum_q", F32), ("peptide_q", F32),
+            ("protein_q", F32), ("ms2_intensity", F32), ("matched_intensity_pct", F32),
+        ],
+    );
+    if let Err(e) = res {
+        return e;
+    }
+    // pin
+    if r.cfg.pin {
+        match read_table(&outdir.join("results.sage.pin")) {
+            None => return "err:no-pin".into(),
+            Some(t) => {
+                if let Err(e) = emit_table(
+                    &mut o,
+                    &t,
+                    &[
+                        ("SpecId", U), ("Label", I), ("ScanNr", S), ("ExpMass", F32), ("CalcMass", F32), ("FileName", S),
+                        ("rank", U), ("z=2", U), ("z=3", U), ("z=4", U), ("z=5", U), ("z=6", U), ("z=other", U),
+                        ("peptide_len", U), ("missed_cleavages", U), ("Peptide", S), ("Proteins", S),
+                    ],
+                ) {
+                    return e;
+                }
+            }
+        }
+    } else {
+        o.n(0);
+    }
+    if r.cfg.annotate {
+        match read_table(&outdir.join("matched_fragments.sage.tsv")) {
+            None => return "err:no-fragments".into(),
+            Some(t) => {
+                if let Err(e) = emit_table(
+                    &mut o,
+                    &t,
+                    &[
+                        ("psm_id", U), ("fragment_type", S), ("fragment_ordinals", I), ("fragment_charge", I),
+                        ("fragment_mz_calculated", F32), ("fragment_mz_experimental", F32), ("fragment_intensity", F32),
+                    ],
+                ) {
+                    return e;
+                }
+            }
+        }
+    } else {
+        o.n(0);
+    }
+    o.finish()
+}
+
+pub fn exec(_op: &str, t: &mut Toks) -> Option<String> {
+    let r = decode(t)?;
+    Some(run(&r))
+}
+
+// ------------------------------------------------------------------------------------- generator
+
+const ALPHABET: &[u8] = b"AAGGLLSSVVEEDDTTKKKRRRPPMMCCFFNNQQHIWY";
+
+fn random_protein(rng: &mut Rng, len: usize) -> String {
+    let mut s = Vec::with_capacity(len);
+    for _ in 0..len {
+        s.push(*rng.pick(ALPHABET));
+    }
+    // make sure there are cleavage sites
+    let n = s.len();
+    for i in (6..n).step_by(9) {
+        if rng.chance(2, 3) {
+            s[i] = if rng.chance(1, 2) { b'K' } else { b'R' };
+        }
+    }
+    String::from_utf8(s).unwrap()
+}
+
+fn random_cfg(rng: &mut Rng) -> Cfg {
+    let enzyme = rng.below(6);
+    let (cleave, restrict, cterm) = match enzyme {
+        0 | 1 => ("KR", Some(b'P'), true),
+        2 => ("KR", None, true),
+        3 => ("K", None, true),
+        4 => ("D", None, false),
+        _ => ("KR", Some(b'P'), true),
+    };
+    let semi = enzyme == 5;
+    let statics = match rng.below(3) {
+        0 => vec![],
+        1 => vec![("C".to_string(), 57.0215f32)],
+        _ => vec![("C".to_string(), 57.0215f32), ("K".to_string(), 229.1629f32)],
+    };
+    let vars = match rng.below(4) {
+        0 => vec![],
+        1 => vec![("M".to_string(), vec![15.9949f32])],
+        2 => vec![("M".to_string(), vec![15.9949f32]), ("^".to_string(), vec![42.0106f32])],
+        _ => vec![("M".to_string(), vec![15.9949f32]), ("[".to_string(), vec![42.0106f32]), ("S".to_string(), vec![79.9663f32])],
+    };
+    let ptol = if rng.chance(2, 3) { (0u8, -20.0f32, 20.0f32) } else { (1u8, -0.5f32, 0.5f32) };
+    let ftol = if rng.chance(2, 3) { (0u8, -20.0f32, 20.0f32) } else { (1u8, -0.02f32, 0.02f32) };
+    let iso = *rng.pick(&[(0i8, 0i8), (0, 0), (-1, 2), (0, 1)]);
+    Cfg {
+        cleave: cleave.into(),
+        restrict,
+        cterm,
+        semi,
+        mc: rng.below(3) as u8,
+        min_len: 5,
+        max_len: 30,
+        min_mass: 400.0,
+        max_mass: 5000.0,
+        statics,
+        vars,
+        max_var: 1 + rng.below(2),
+        decoy_tag: if rng.chance(1, 3) { "DECOY_".into() } else { "rev_".into() },
+        gen_decoys: true,
+        ptol,
+        ftol,
+        iso,
+        z: (2, 3),
+        report_psms: 1 + rng.below(3),
+        chimera: rng.chance(1, 5),
+        min_peaks: 4,
+        max_peaks: 150,
+        min_matched: 3,
+        max_frag_charge: if rng.chance(1, 3) { Some(1) } else { None },
+        deisotope: rng.chance(1, 2),
+        annotate: rng.chance(1, 2),
+        pin: rng.chance(1, 2),
+        predict_rt: rng.chance(1, 2),
+        batch: 1 + rng.below(3),
+        bucket: *rng.pick(&[8usize, 64, 8192]),
+        min_ion_index: *rng.pick(&[1usize, 2]),
+    }
+}
+
+pub fn random_request(rng: &mut Rng, nspec: usize) -> Option<Request> {
+    let mut cfg = random_cfg(rng);
+    let nprot = 2 + rng.below(5);
+    let mut fasta: Vec<(String, String)> = Vec::new();
+    for i in 0..nprot {
+        let len = 20 + rng.below(60);
+        fasta.push((format!("sp|P{:05}|PROT{}", i, i), random_protein(rng, len)));
+    }
+    // a shared peptide between two proteins
+    if nprot >= 2 {
+        let src = fasta[0].1.clone();
+        if src.len() > 20 {
+            let piece = &src[5..18];
+            fasta[1].1 = format!("{}K{}R{}", &fasta[1].1[..8.min(fasta[1].1.len())], piece, &fasta[1].1[8.min(fasta[1].1.len())..]);
+        }
+    }
+    // FASTA-supplied decoys in some runs
+    if rng.chance(1, 4) {
+        cfg.gen_decoys = false;
+        let n = fasta.len();
+        for i in 0..n {
+            let rev: String = fasta[i].1.chars().rev().collect();
+            fasta.push((format!("{}{}", cfg.decoy_tag, fasta[i].0), rev));
+        }
+    }
+    // build the database with the real code, only to choose peptides to plant
+    let text = fasta_text(&fasta);
+    let builder: Builder = serde_json::from_value(database_json(&cfg, "unused")).ok()?;
+    let params = builder.make_parameters();
+    let fa = Fasta::parse(text, &params.decoy_tag, params.generate_decoys);
+    let db = std::panic::catch_unwind(|| params.build(fa)).ok()?;
+    if db.peptides.is_empty() {
+        return None;
+    }
+    let nfiles = 1 + rng.below(3);
+    let mut files: Vec<Vec<Spec>> = vec![Vec::new(); nfiles];
+    let mut planted = Vec::new();
+    for k in 0..nspec {
+        let pep = &db.peptides[rng.below(db.peptides.len())];
+        let z = 2 + rng.below(2) as u8;
+        let iso_k = if cfg.iso.0 == cfg.iso.1 { 0.0 } else { rng.range(cfg.iso.0 as i64, cfg.iso.1 as i64) as f32 };
+        let mass = pep.monoisotopic + iso_k * NEUTRON;
+        let pepmz = (mass + z as f32 * PROTON) / z as f32;
+        let mut peaks: Vec<(f32, f32)> = Vec::new();
+        for kind in [Kind::B, Kind::Y] {
+            for ion in IonSeries::new(pep, kind) {
+                let inten = *rng.pick(&[50.0f32, 100.0, 100.0, 200.0, 400.0]);
+                peaks.push((ion.monoisotopic_mass + PROTON, inten));
+            }
+        }
+        for _ in 0..rng.below(12) {
+            peaks.push((150.0 + rng.unit() as f32 * 1500.0, *rng.pick(&[10.0f32, 20.0, 50.0])));
+        }
+        peaks.sort_by(|a, b| a.0.total_cmp(&b.0));
+        let file = rng.below(nfiles);
+        let title = format!("scan={}", 1000 + k);
+        files[file].push(Spec {
+            title: title.clone(),
+            pepmz,
+            charge: if rng.chance(3, 4) { Some(z) } else { None },
+            rt_sec: 60.0 + 30.0 * k as f32,
+            peaks,
+        });
+        planted.push(Planted { file, title, peptide: pep.to_string() });
+    }
+    for f in files.iter_mut() {
+        if f.is_empty() {
+            // every file needs at least one spectrum block
+            f.push(Spec { title: "scan=1".into(), pepmz: 500.0, charge: Some(2), rt_sec: 1.0, peaks: vec![(200.0, 1.0), (300.0, 1.0)] });
+        }
+    }
+    Some(Request { cfg, fasta, files, planted })
+}
+
+pub fn gen(rng: &mut Rng, tier: Tier, emit: &mut dyn FnMut(Case)) {
+    let n = if tier == Tier::Quick { 6 } else { 150 };
+    let mut made = 0;
+    let mut tries = 0;
+    while made < n && tries < n * 5 {
+        tries += 1;
+        let nspec = 4 + rng.below(if tier == Tier::Quick { 8 } else { 30 });
+        if let Some(r) = random_request(rng, nspec) {
+            let c = &r.cfg;
+            let case = Case::new(encode(&r))
+                .tag_if(c.semi, "semi-enzymatic")
+                .tag_if(!c.cterm, "n-terminal-enzyme")
+                .tag_if(!c.gen_decoys, "fasta-decoys")
+                .tag_if(c.ptol.0 == 1, "precursor-da")
+                .tag_if(c.iso.0 != c.iso.1, "isotope-errors")
+                .tag_if(c.chimera, "chimera")
+                .tag_if(c.pin, "pin")
+                .tag_if(c.annotate, "annotate")
+                .tag_if(!c.vars.is_empty(), "variable-mods")
+                .tag_if(!c.statics.is_empty(), "static-mods")
+                .tag_if(c.report_psms > 1, "report_psms>1")
+                .tag_if(r.files.len() > 1, "multi-file");
+            emit(case);
+            made += 1;
+        }
+    }
 }
